@@ -72,7 +72,8 @@ RULES = {
            'option vector, path state) shapes',
     'C09': 'each run = discovered or hand-written constraint sets, 1-4 '
            'write/load cycles on real files (shorter over longer content), '
-           'verification verdicts via dict / path / reloaded object on the '
+           'verification verdicts via dict (fresh copy, or one dictionary '
+           'object passed again and again) / path / reloaded object on the '
            'pool frames, noise (unknown kinds, # keys, null values); '
            'non-trivial = >= 2 cycles or noise or date/precision/unicode '
            'content; distinct = distinct (constraint-kind set, cycle count, '
